@@ -107,6 +107,7 @@ class Flow:
         self.pending = []          # handler ids of writes issued, completion not yet seen
         self.delivered = 0         # bytes of it handed to the reader so far
         self.unverified = []       # reads waiting for a pending write's completion
+        self.holes = {}            # read handler id -> (offset, k): bytes a posted completion must still report
         self.reports = 0
 
 
@@ -134,6 +135,7 @@ class Monitor:
         self.stats = dict(reads=0, read_bytes=0, writes=0, written=0, eofs=0, sides=0, reused=0, partial_writes=0,
                           deferred=0, small_reads=0, nb_reads=0, unattributed=0)
         self.last_syn_from = None
+        self.ended_run = False
 
     # ---------------------------------------------------------------- reporting
     def fail(self, clause, detail):
@@ -289,6 +291,7 @@ class Monitor:
         d = flow.delivered
         if d + n <= len(flow.content):
             if not self.matches(flow.content, d, n, dg):
+                if self.overtaken(side, flow, n, dg): return
                 flow.reports += 1
                 if flow.reports <= 2:
                     self.classify(side, flow, n, dg, "expected the bytes [%d,%d) of what %s's completed writes transferred, %s" % (d, d + n, flow.side.name(), digest(flow.content[d:d + n])), where)
@@ -303,6 +306,22 @@ class Monitor:
         if flow.reports <= 2:
             self.classify(side, flow, n, dg, "the reader would have been handed %d bytes while completed writes of %s reported only %d as transferred" % (d + n, flow.side.name(), len(flow.content)), where)
         flow.delivered = d + n
+
+    def overtaken(self, side, flow, n, dg):
+        """a non-blocking read can run between the moment an asynchronous read copied its bytes
+        (completion posted) and the moment its handler is invoked: the bytes it returns then lie
+        k <= capacity bytes ahead, and the pending completion must later report exactly those k"""
+        d = flow.delivered
+        for hid, rec in self.handlers.items():
+            if rec.get("kind") != "read" or rec.get("done") or rec.get("side") is not side or hid in flow.holes: continue
+            for k in range(1, rec.get("cap", 0) + 1):
+                if d + k + n > len(flow.content): break
+                if self.matches(flow.content, d + k, n, dg):
+                    flow.holes[hid] = (d, k)
+                    flow.delivered = d + k + n
+                    self.stats["overtaken"] = self.stats.get("overtaken", 0) + 1
+                    return True
+        return False
 
     def drain(self, flow):
         pend = flow.unverified; flow.unverified = []
@@ -369,6 +388,8 @@ class Monitor:
                 if _is_ep(d.get("local", "")): self.bound[obj] = d["local"]
             elif m in ("accept", "accept_ep", "accept_new") and len(args) >= 2:
                 self.handlers[args[1]] = dict(kind="accept", sock=args[0], acc=obj)
+                # accepting into a socket object closes whatever connection it is on, at the call
+                if m != "accept_new": self.end_side(args[0])
             elif m in ("close", "close0", "destroy", "open"):
                 if m != "open": self.bound.pop(obj, None)
             return
@@ -482,6 +503,16 @@ class Monitor:
                 side = self.cur.get(rec.get("sock"))
             if kind == "read":
                 n = _int(d.get("n"))
+                hole = None
+                if side is not None and side.peer is not None:
+                    hole = side.peer.out.holes.pop(tk[1], None)
+                if hole is not None:
+                    f = side.peer.out
+                    if not (ec == "ok" and n == hole[1] and self.matches(f.content, hole[0], n, self.dg_of(tk))):
+                        self.fail("prefix", "%s: %s: a non-blocking read had already been handed the bytes from offset %d on, so this completion had to report the %d bytes [%d,%d) of what %s wrote; it reports ec=%s n=%d %s"
+                                  % (where, side.name(), hole[0] + hole[1], hole[1], hole[0], hole[0] + hole[1], f.side.name(), ec, n, self.dg_of(tk)))
+                    self.stats["reads"] += 1; self.stats["read_bytes"] += n
+                    return
                 if ec == "ok" and n > 0: self.deliver(side, n, self.dg_of(tk), where, rec.get("cap"))
                 elif ec == "eof": self.eof(side, where)
                 elif n > 0: self.fail("prefix", "%s: failed read reports n=%d" % (where, n))
@@ -504,6 +535,8 @@ class Monitor:
                 self.on_H(ln.split(), ln)
             elif c == "X":
                 crashed = True
+            elif c == "R":
+                self.ended_run = True
             self.last_syn_from = None
         # end of trace
         for s in self.sides:
@@ -511,6 +544,9 @@ class Monitor:
             if f.unverified and not crashed:
                 (side, n, dg, where) = f.unverified[0]
                 self.classify(side, f, n, dg, "the reader was handed %d bytes more than the %d bytes the completed writes of %s reported" % (sum(x[1] for x in f.unverified) + f.delivered - len(f.content), len(f.content), s.name()), where)
+            if f.holes and not crashed and self.ended_run:
+                hid, (o, k) = sorted(f.holes.items())[0]
+                self.fail("prefix", "bytes [%d,%d) of what %s wrote were skipped: a non-blocking read returned the bytes behind them, and the pending read %s that should have reported them never completed" % (o, o + k, s.name(), hid))
             if s.eof_seen and s.peer is not None:
                 acc = len(s.peer.out.content); at = getattr(s, "eof_at", None)
                 if at is not None and at < acc:
